@@ -461,8 +461,9 @@ def write_evidence(ctx, plan, wall, violations, unknowns, known_hits, proved):
         "trusted_base": ctx.trusted,
         "functions_under_contract": ctx.functions,
         # capped at 600 entries: undischarged first, then the bounded clauses, then the discharged formal obligations
+        # (among those: G3 / lemma obligations before the numerous G1 ones, so that the cap never hides a whole generator)
         "obligation_list": [o.to_json() for o in sorted(ctx.obs, key=lambda o: (o.verdict in PROVED and o.generator != "G4",
-                                                                                 o.verdict in PROVED))][:600],
+                                                                                 o.verdict in PROVED, o.generator == "G1"))][:600],
         "obligation_list_total": len(ctx.obs),
         "generators": sorted({o.generator for o in ctx.obs}),
         "by_backend": by_backend,
